@@ -156,6 +156,8 @@ pub enum EKind {
     Variant(usize, String, Option<Box<Expr>>),
     MaybeJust(Box<Expr>),
     MaybeNone,
+    /// literal source text (planted faults / perturbations); printed as is
+    Raw(String),
 }
 
 #[derive(Clone, Debug, PartialEq, Serialize, Deserialize)]
@@ -212,6 +214,8 @@ pub enum Stmt {
     /// `<!>`; uid lets the printer report the line it was printed on
     Unreachable(u32),
     Assert(Expr, Expr),
+    /// literal source text of one statement (planted faults); printed as is at the block's indentation
+    Raw(String),
 }
 
 #[derive(Clone, Debug, PartialEq, Serialize, Deserialize)]
